@@ -19,6 +19,12 @@ def main():
     if r.returncode != 0:
         print("patch does not apply:", r.stderr); return 2
     out = []
+    # evidence files describe runs on /repo ITSELF: what a run against a seeded change writes is set aside, never kept
+    import shutil, tempfile
+    evdir = os.path.join(ROOT, "evidence")
+    keep = tempfile.mkdtemp(prefix="evidence-keep-", dir=os.path.join(ROOT, "work") if os.path.isdir(os.path.join(ROOT, "work")) else None)
+    for fn in os.listdir(evdir):
+        shutil.copy2(os.path.join(evdir, fn), os.path.join(keep, fn))
     try:
         for c in checks:
             p = subprocess.run([os.path.join(ROOT, "check"), c, tier], capture_output=True, text=True, cwd=ROOT)
@@ -35,6 +41,9 @@ def main():
     finally:
         subprocess.run(["git", "-C", "/repo", "checkout", "--", "."])
         subprocess.run(["git", "-C", "/repo", "clean", "-fdq"])
+        for fn in os.listdir(keep):
+            shutil.copy2(os.path.join(keep, fn), os.path.join(evdir, fn))
+        shutil.rmtree(keep, ignore_errors=True)
     return 0
 if __name__ == "__main__":
     sys.exit(main())
